@@ -14,6 +14,7 @@ type Iface struct {
 	MAC   net.HardwareAddr
 	Flags net.Flags
 	MTU   int
+	Addrs []net.IP // addresses configured on the interface (bind(2) needs them for unicast listen addresses)
 }
 
 //go:norace
@@ -28,21 +29,218 @@ func (s *Sim) OpenPort(v6 bool) int {
 	return p.id
 }
 
-// OpenPortTask is OpenPort for use from a task (the injected listener constructor).
+// UDPConn is the simulated UDP socket returned by NewIPv4UDPConn / NewIPv6UDPConn.
+type UDPConn struct{ id int }
+
+// ID is the simulated port behind the socket.
 //
 //go:norace
-func OpenPortTask(v6 bool) int {
+func (c *UDPConn) ID() int { return c.id }
+
+// Close closes the socket; a ReadFrom parked on it returns net.ErrClosed.
+//
+//go:norace
+func (c *UDPConn) Close() error { return ClosePortTask(c.id) }
+
+//go:norace
+func (c *UDPConn) LocalAddr() net.Addr { return PortLocalAddr(c.id) }
+
+// SocketFault makes the n-th socket opened from now on fail (0 = none); models EMFILE and friends.
+//
+//go:norace
+func (s *Sim) SocketFault(n int) { s.sockFailIn = n }
+
+//go:norace
+func newUDPConn(v6 bool, iface string, addr *net.UDPAddr) (*UDPConn, error) {
 	s := S
-	if s == nil {
-		return -1
+	if s == nil || s.cur == nil {
+		return nil, errors.New("simrt: sockets exist only inside a simulation")
 	}
-	inc := s.Inc
-	if s.cur != nil {
-		inc = s.cur.Inc
+	syncPoint(s, -1)
+	if s.sockFailIn > 0 {
+		s.sockFailIn--
+		if s.sockFailIn == 0 {
+			s.FaultsFired[FSockErr]++
+			return nil, errors.New("cannot get a UDP socket: too many open files")
+		}
 	}
-	p := &port{id: len(s.ports), v6: v6, inc: inc}
+	p := &port{id: len(s.ports), v6: v6, inc: s.cur.Inc}
+	if iface != "" {
+		ifi, err := InterfaceByName(iface)
+		if err != nil {
+			return nil, errors.New("cannot bind to interface " + iface + ": no such device")
+		}
+		p.zone, p.bindIf = rawString(iface), ifi.Index
+	}
+	if addr == nil {
+		if v6 {
+			return nil, errors.New("An address to listen on needs to be specified")
+		}
+		addr = &net.UDPAddr{Port: 67}
+	}
+	ip := addr.IP
+	if !v6 {
+		if ip != nil && ip.To4() == nil {
+			return nil, errors.New("wrong address family (expected v4) for " + ip.String())
+		}
+		ip = ip.To4()
+		if ip == nil {
+			ip = net.IPv4zero.To4()
+		}
+	} else {
+		// the real constructor copies the 16-byte form into the sockaddr
+		b := make([]byte, 16)
+		for i := 0; i < len(ip) && i < 16; i++ {
+			b[i] = ip[i]
+		}
+		ip = b
+	}
+	// bind(2): a unicast address has to be configured on the host (on the bound interface, if any)
+	if !ip.IsUnspecified() && !ip.IsMulticast() && !ip.Equal(net.IPv4bcast) && !s.hostHasAddr(ip, p.bindIf) {
+		return nil, errors.New("cannot bind to " + addr.String() + ": cannot assign requested address")
+	}
+	p.ip = rawCopy(ip)
+	p.portNum = addr.Port
 	s.ports = append(s.ports, p)
-	return p.id
+	return &UDPConn{id: p.id}, nil
+}
+
+//go:norace
+func (s *Sim) hostHasAddr(ip net.IP, ifindex int) bool {
+	for _, i := range s.ifaces {
+		if ifindex != 0 && i.Index != ifindex {
+			continue
+		}
+		for _, a := range i.Addrs {
+			if a.Equal(ip) {
+				return true
+			}
+		}
+	}
+	return false
+}
+
+// NewIPv4UDPConn replaces server4.NewIPv4UDPConn.
+//
+//go:norace
+func NewIPv4UDPConn(iface string, addr *net.UDPAddr) (*UDPConn, error) {
+	return newUDPConn(false, iface, addr)
+}
+
+// NewIPv6UDPConn replaces server6.NewIPv6UDPConn.
+//
+//go:norace
+func NewIPv6UDPConn(iface string, addr *net.UDPAddr) (*UDPConn, error) {
+	return newUDPConn(true, iface, addr)
+}
+
+// Control flag bits shared by x/net/ipv4 and ipv6 for the flags that matter here (FlagTTL/FlagTrafficClass = 1,
+// FlagSrc = 2, FlagDst = 4, FlagInterface = 8); the sim4/sim6 packages translate.
+const (
+	CFlagHop = 1 << iota
+	CFlagSrc
+	CFlagDst
+	CFlagInterface
+	CFlagPathMTU
+)
+
+// PortSetControl models SetControlMessage.
+//
+//go:norace
+func PortSetControl(id int, flags int, on bool) error {
+	s := S
+	if s == nil || id < 0 || id >= len(s.ports) {
+		return syscall.EINVAL
+	}
+	p := s.ports[id]
+	if p.closed {
+		return net.ErrClosed
+	}
+	syncPoint(s, -1)
+	if on {
+		p.cflags |= flags
+	} else {
+		p.cflags &^= flags
+	}
+	return nil
+}
+
+// PortControl reports the control flags enabled on a socket.
+//
+//go:norace
+func PortControl(id int) int {
+	s := S
+	if s == nil || id < 0 || id >= len(s.ports) {
+		return 0
+	}
+	return s.ports[id].cflags
+}
+
+// PortJoinGroup models JoinGroup (IP_ADD_MEMBERSHIP / IPV6_JOIN_GROUP).
+//
+//go:norace
+func PortJoinGroup(id int, ifi *net.Interface, group net.Addr) error {
+	s := S
+	if s == nil || id < 0 || id >= len(s.ports) {
+		return syscall.EINVAL
+	}
+	p := s.ports[id]
+	if p.closed {
+		return net.ErrClosed
+	}
+	syncPoint(s, -1)
+	var gip net.IP
+	switch g := group.(type) {
+	case *net.UDPAddr:
+		if g != nil {
+			gip = g.IP
+		}
+	case *net.IPAddr:
+		if g != nil {
+			gip = g.IP
+		}
+	}
+	if gip == nil || !gip.IsMulticast() || (gip.To4() != nil) == p.v6 {
+		return errors.New("invalid argument")
+	}
+	idx := 0
+	if ifi != nil {
+		if _, err := InterfaceByIndex(ifi.Index); err != nil {
+			return errors.New("no such device")
+		}
+		idx = ifi.Index
+	}
+	p.groups = append(p.groups, GroupJoin{IfIndex: idx, Group: rawCopy(gip)})
+	return nil
+}
+
+// ClosePortTask closes a socket from a task.
+//
+//go:norace
+func ClosePortTask(id int) error {
+	s := S
+	if s == nil || id < 0 || id >= len(s.ports) {
+		return syscall.EBADF
+	}
+	p := s.ports[id]
+	if p.closed {
+		return net.ErrClosed
+	}
+	p.closed = true
+	s.wakeWaiters(unsafe.Pointer(p), StBlockedNet)
+	syncPoint(s, -1)
+	return nil
+}
+
+// Ports lists every socket opened so far (scheduler context).
+//
+//go:norace
+func (s *Sim) Ports() []PortInfo {
+	var r []PortInfo
+	for _, p := range s.ports {
+		r = append(r, PortInfo{ID: p.id, V6: p.v6, Inc: p.inc, Closed: p.closed, Zone: p.zone, BindIf: p.bindIf, IP: p.ip, Port: p.portNum, CFlags: p.cflags, Groups: p.groups, Backlog: len(p.inbox)})
+	}
+	return r
 }
 
 // Inject queues a datagram on a listener (scheduler context). Returns false if the port is closed.
@@ -120,6 +318,7 @@ type taken struct {
 	srcPort int
 	srcZone string
 	ifindex int
+	dstIP   []byte
 }
 
 // netTake parks until a datagram is queued, then returns a private copy of it.
@@ -139,7 +338,7 @@ func netTake(portID int) (tk taken, err error) {
 			d := p.inbox[0]
 			p.inbox = p.inbox[1:]
 			p.reads++
-			tk = taken{data: rawCopy(d.Bytes), srcIP: rawCopy(d.SrcIP), srcPort: d.SrcPort, srcZone: rawString(d.SrcZone), ifindex: d.IfIndex}
+			tk = taken{data: rawCopy(d.Bytes), srcIP: rawCopy(d.SrcIP), srcPort: d.SrcPort, srcZone: rawString(d.SrcZone), ifindex: d.IfIndex, dstIP: rawCopy(d.DstIP)}
 			if s.cur != nil {
 				s.cur.pendTag = d.ID
 			}
@@ -153,14 +352,17 @@ func netTake(portID int) (tk taken, err error) {
 // NetRead is ReadFrom on a simulated listener (race-visible: on purpose). The copy into b is done by
 // instrumented code (not norace) on purpose: it is the write the race detector
 // must see when a handler still aliases a recycled receive buffer.
-func NetRead(portID int, b []byte) (n int, ifindex int, src *net.UDPAddr, err error) {
+func NetRead(portID int, b []byte) (n int, ifindex int, dst net.IP, src *net.UDPAddr, err error) {
 	tk, err := netTake(portID)
 	if err != nil {
-		return 0, 0, nil, err
+		return 0, 0, nil, nil, err
 	}
 	n = copy(b, tk.data)
 	src = &net.UDPAddr{IP: net.IP(tk.srcIP), Port: tk.srcPort, Zone: tk.srcZone}
-	return n, tk.ifindex, src, nil
+	if len(tk.dstIP) > 0 {
+		dst = net.IP(tk.dstIP)
+	}
+	return n, tk.ifindex, dst, src, nil
 }
 
 // NetWrite is WriteTo on a simulated listener.
@@ -203,14 +405,16 @@ func (s *Sim) emit(c *Capture) {
 	s.outbox = append(s.outbox, c)
 }
 
-// PortLocalAddr is LocalAddr on a simulated listener.
+// PortLocalAddr is LocalAddr on a simulated socket.
 //
 //go:norace
-func PortLocalAddr(portID int, v6 bool) net.Addr {
-	if v6 {
-		return &net.UDPAddr{IP: net.IPv6unspecified, Port: 547}
+func PortLocalAddr(portID int) net.Addr {
+	s := S
+	if s == nil || portID < 0 || portID >= len(s.ports) {
+		return &net.UDPAddr{}
 	}
-	return &net.UDPAddr{IP: net.IPv4zero, Port: 67}
+	p := s.ports[portID]
+	return &net.UDPAddr{IP: net.IP(rawCopy(p.ip)), Port: p.portNum, Zone: p.zone}
 }
 
 // InterfaceByIndex replaces net.InterfaceByIndex.
